@@ -297,6 +297,9 @@ def unit_key(unit, gb, extra_files):
     h.update(json.dumps(tv(), sort_keys=True).encode())
     h.update(json.dumps(DEFAULT_CBMC_FLAGS).encode())
     h.update(open(os.path.abspath(__file__), "rb").read())  # classification rules are part of the key
+    kf = os.path.join(VERIF, "known_findings.json")
+    if os.path.exists(kf):
+        h.update(open(kf, "rb").read())  # listed findings get no counterexample run (see verify_unit)
     return h.hexdigest()
 
 
@@ -535,6 +538,26 @@ def verify_unit_native(unit):
     return res
 
 
+def listed_finding(unit, ob):
+    """True if a failed obligation is one of the recorded findings (any property): the check
+    prints KNOWN-FINDING for it and needs no counterexample, so the expensive trace run
+    (a second cbmc run with --json-ui --trace) is skipped for it."""
+    kf = os.path.join(VERIF, "known_findings.json")
+    if not os.path.exists(kf):
+        return False
+    for k in json.load(open(kf)).get("findings", []):
+        if k.get("unit") and k["unit"] != unit["name"]:
+            continue
+        if k.get("tag") and k["tag"] not in ob["tags"]:
+            continue
+        if k.get("obligation") and k["obligation"] != ob["id"]:
+            continue
+        if k.get("desc_contains") and k["desc_contains"] not in ob["desc"]:
+            continue
+        return True
+    return False
+
+
 def verify_unit(unit, use_cache=True):
     """Returns dict(status, obligations, wall, ...). status in ok|failed|tooling."""
     if unit.get("native"):
@@ -604,9 +627,11 @@ def verify_unit(unit, use_cache=True):
         res["unreachable_covers"] = [o["desc"] for o in vac]
         if failed:
             res["status"] = "failed"
+        want_trace = [o for o in failed if not listed_finding(unit, o)]
+        if want_trace:
             # second run with traces for the failed obligations only
             outp2 = os.path.join(workdir, "trace.json")
-            cmd2 = cbmc_cmd(unit, gb, trace=True, props=[o["id"] for o in failed[:12]])
+            cmd2 = cbmc_cmd(unit, gb, trace=True, props=[o["id"] for o in want_trace[:12]])
             r2 = run(cmd2, unit["timeout"], unit["mem_gb"], stdout_path=outp2)
             results2, _ = parse_cbmc(outp2) if not r2["timeout"] else (None, "")
             by = {x.get("property"): x for x in (results2 or [])}
@@ -623,7 +648,7 @@ def verify_unit(unit, use_cache=True):
                                          "line": st.get("sourceLocation", {}).get("line"),
                                          "reason": st.get("reason")})
                     o["trace_tail"] = tail
-        else:
+        if not failed:
             res["status"] = "ok"
         res["reason"] = ""
     except Tooling as e:
